@@ -308,6 +308,20 @@ fn rule_cases() -> Vec<Case> {
     add("duplicate fields", "input N { a: Int a: Int }", false);
     add("duplicate fields", "type T { a: Int }\nextend type T { a: Int }", false);
     add("duplicate fields", "type T { a: Int b: Int }\ninterface I { a: Int b: Int }\ninput N { a: Int b: Int }", true);
+    // a duplicate that is not adjacent to its first occurrence, with names in between that sort before and after it
+    add("duplicate fields", "type T { name: String! id: ID! name: String! }", false);
+    add("duplicate fields", "type T { m: Int z: Int a: Int q: Int m: Int }", false);
+    add("duplicate fields", "interface I { name: String id: ID name: String }", false);
+    add("duplicate fields", "input N { name: String id: ID zz: Int name: String }", false);
+    add("duplicate fields", "type T { name: String id: ID }\nextend type T { aa: Int name: String }", false);
+    add("duplicate arguments", "type T { a(offset: Int, limit: Int, offset: Int): Int }", false);
+    add("duplicate arguments", "directive @d(offset: Int, limit: Int, zz: Int, offset: Int) on FIELD", false);
+    add("duplicate enum values", "enum E { USER ADMIN USER }", false);
+    add("duplicate enum values", "enum E { M Z A Q M }", false);
+    add("duplicate enum values", "enum E { USER ADMIN }\nextend enum E { GUEST USER }", false);
+    add("duplicate union members", "type Dog { a: Int }\ntype Cat { a: Int }\nunion Pet = Dog | Cat | Dog", false);
+    add("duplicate union members", "type Dog { a: Int }\ntype Cat { a: Int }\ntype Ant { a: Int }\nunion Pet = Dog | Cat\nextend union Pet = Ant | Dog", false);
+    add("duplicate fields", "type T { m: Int z: Int a: Int q: Int b: Int }\nenum E { M Z A Q B }\ntype Dog { a: Int }\ntype Cat { a: Int }\nunion Pet = Dog | Cat\ninput N { m: Int z: Int a: Int }", true);
     add("duplicate arguments", "type T { a(x: Int, x: Int): Int }", false);
     add("duplicate arguments", "directive @d(x: Int, x: Int) on FIELD", false);
     add("duplicate arguments", "type T { a(x: Int, y: Int): Int b(x: Int): Int }", true);
